@@ -241,7 +241,7 @@ def step (s : St) (toks : List String) : Option (St × String × String) :=
       some ({ s with st := st', absContent := abs, absTags := absT, view := none, why := why, blobsWhy := bw }, showU r, sp)
   | ["saveindex"] => some ({ s with st := s.st.saveIndex }, "ok", "ok")
   | ["gc"] =>
-      let (st', r) := s.st.gc c Gen.gcWalkAdvances Gen.gcSavesIndex s.fuel
+      let (st', r) := s.st.gc c Gen.gcWalkAdvances Gen.gcRepeatsReferrerPass Gen.gcSavesIndex s.fuel
       let keep := if s.judgeGC then specGCKeep s else st'.blobs
       let abs := s.absContent.filter (keep.contains ·)
       -- strays are garbage by definition
